@@ -1107,6 +1107,25 @@ def r48_fold_max(text, base_line=0):
     return pat.sub(lambda m: "{ let mut __m = %s; for __t in 0..%s.len() { __m = f32::max(__m, %s[__t]); } __m }" % (m.group(2).strip(), m.group(1), m.group(1)), text), log
 
 
+def r49_chunks_exact_view(text, base_line=0):
+    """R49: `V.chunks_exact(A).map(|P| P.chunks_exact(B).map(|Q| Q.to_vec()).collect()).collect()` -> block with three nested index loops:
+    `V.len() / A` channels, `A / B` rows of `B` elements, element `V[p*A + q*B + r]` (what chunks_exact yields, in order; a zero chunk size panics / divides by zero)"""
+    log = []
+    pat = re.compile(r"(\w+)\s*\.chunks_exact\(([^()]+)\)\s*\.map\(\|(\w+)\|\s*\3\.chunks_exact\(([^()]+)\)\.map\(\|(\w+)\|\s*\5\.to_vec\(\)\)\.collect\(\)\)\s*\.collect\(\)")
+    while True:
+        m = pat.search(text)
+        if not m:
+            return text, log
+        v, a, _, b, _ = m.groups()
+        a, b = a.strip(), b.strip()
+        new = ("{ let __ca: usize = %s; let __cb: usize = %s; let __cn: usize = %s.len() / __ca; let __rn: usize = __ca / __cb; let mut __o3: Vec<Vec<Vec<f32>>> = Vec::new(); "
+               "for __p in 0..__cn { let mut __o2: Vec<Vec<f32>> = Vec::new(); for __q in 0..__rn { let mut __o1: Vec<f32> = Vec::new(); for __r in 0..__cb "
+               "{ __o1.push(%s[__p * __ca + __q * __cb + __r]); } __o2.push(__o1); } __o3.push(__o2); } __o3 }" % (a, b, v, v)) + "\n" * m.group(0).count("\n")
+        log.append("R49 line %d: `%s.chunks_exact(%s).map(|c| c.chunks_exact(%s).map(|r| r.to_vec()).collect()).collect()` -> three nested index loops reading `%s[p*A + q*B + r]`"
+                   % (base_line + text.count("\n", 0, m.start()), v, a, b, v))
+        text = text[:m.start()] + new + text[m.end():]
+
+
 def r21_to_owned(text, base_line=0):
     """R21: `.to_owned()` -> `.clone()` (identical for a `Clone` type; vstd specifies `Clone`)"""
     log = []
@@ -1124,9 +1143,9 @@ REWRITES = {
     "R1": r1_compound_assign, "R2": r2_unary_minus, "R3": r3_scale_call, "R6": r6_for_with_continue,
     "R7": r7_isqrt, "R8": r8_step_by, "R9": r9_consts, "R10": r10_tail_continue,
     "R12": r12_enumerate, "R15": r15_iter, "R16": r16_map_index, "R17": r17_for_in_ref_vec, "R18": r18_assert_eq_shape,
-    "R19": r19_last_unwrap, "R20": r20_range_enumerate, "R21": r21_to_owned, "R22": r22_map_collect, "R23": r23_slice_iter, "R24": r24_name_wildcard_loop, "R25": r25_par_map_collect, "R26": r26_zip_iter_mut, "R27": r27_sum_f32, "R28": r28_as_f32, "R29": r29_consuming_for, "R30": r30_rev_take_collect, "R31": r31_zip_map_sum, "R32": r32_chunked_zip_flat_map, "R33": r33_unzip, "R34": r34_chunked_flat_map, "R35": r35_chunk_const, "R36": r36_extend, "R37": r37_for_in_ref, "R38": r38_flat_map3, "R39": r39_unflatten, "R42": r42_assert_eq, "R43": r43_mut_self, "R44": r44_name_tail_call, "R45": r45_min_method, "R47": r47_zip_mut_enumerate, "R48": r48_fold_max, "R46": r46_f32_as_usize, "R40": r40_for_mut_ref, "R41": r41_iter_mut_for_each, "R13": r13_panic_allowed, "R14": r14_panic_forbidden,
+    "R19": r19_last_unwrap, "R20": r20_range_enumerate, "R21": r21_to_owned, "R22": r22_map_collect, "R23": r23_slice_iter, "R24": r24_name_wildcard_loop, "R25": r25_par_map_collect, "R26": r26_zip_iter_mut, "R27": r27_sum_f32, "R28": r28_as_f32, "R29": r29_consuming_for, "R30": r30_rev_take_collect, "R31": r31_zip_map_sum, "R32": r32_chunked_zip_flat_map, "R33": r33_unzip, "R34": r34_chunked_flat_map, "R35": r35_chunk_const, "R36": r36_extend, "R37": r37_for_in_ref, "R38": r38_flat_map3, "R39": r39_unflatten, "R42": r42_assert_eq, "R43": r43_mut_self, "R44": r44_name_tail_call, "R45": r45_min_method, "R47": r47_zip_mut_enumerate, "R48": r48_fold_max, "R49": r49_chunks_exact_view, "R46": r46_f32_as_usize, "R40": r40_for_mut_ref, "R41": r41_iter_mut_for_each, "R13": r13_panic_allowed, "R14": r14_panic_forbidden,
 }
-ORDER = ["R42", "R43", "R44", "R28", "R46", "R45", "R47", "R48", "R18", "R13", "R14", "R16", "R40", "R41", "R38", "R39", "R36", "R37", "R31", "R32", "R34", "R35", "R33", "R25", "R26", "R29", "R30", "R27", "R20", "R22", "R23", "R24", "R12", "R15", "R17", "R19", "R21", "R10", "R8", "R6", "R9", "R7", "R3", "R1", "R2"]
+ORDER = ["R42", "R43", "R44", "R28", "R46", "R45", "R47", "R48", "R49", "R18", "R13", "R14", "R16", "R40", "R41", "R38", "R39", "R36", "R37", "R31", "R32", "R34", "R35", "R33", "R25", "R26", "R29", "R30", "R27", "R20", "R22", "R23", "R24", "R12", "R15", "R17", "R19", "R21", "R10", "R8", "R6", "R9", "R7", "R3", "R1", "R2"]
 
 
 def apply_rewrites(text, names, base_line):
